@@ -47,6 +47,103 @@ def rejecting_if(func):
     return None
 
 
+_TRAVERSAL = ("AcceptVisitor", "v_Visit", "v_Generic", "Visit")
+
+
+def _presence_test(t) -> bool:
+    """a test that only asks whether a child is there / what kind of node it is: `x is None`, `x`, `not x`, `x.HasY()`,
+    `len(x) == 0`, `isinstance(x, C)`, and boolean combinations of these"""
+    if isinstance(t, ast.UnaryOp) and isinstance(t.op, ast.Not):
+        return _presence_test(t.operand)
+    if isinstance(t, ast.BoolOp):
+        return all(_presence_test(x) for x in t.values)
+    if isinstance(t, (ast.Name, ast.Attribute)):
+        return True
+    if isinstance(t, ast.Compare) and len(t.ops) == 1:
+        if isinstance(t.ops[0], (ast.Is, ast.IsNot)) and isinstance(t.comparators[0], ast.Constant) and t.comparators[0].value is None:
+            return True
+        if isinstance(t.left, ast.Call) and isinstance(t.left.func, ast.Name) and t.left.func.id == "len" and isinstance(t.comparators[0], ast.Constant):
+            return True
+        return False
+    if isinstance(t, ast.Call):
+        if isinstance(t.func, ast.Name) and t.func.id == "isinstance":
+            return True
+        if isinstance(t.func, ast.Attribute) and not t.args and not t.keywords and t.func.attr.startswith(("Has", "Is", "Get")):
+            return True
+    return False
+
+
+def validator_early_exits(v):
+    """[(handler, return statement, guard)] explicit `return`s of a validating visitor's handlers that come before one of
+    the handler's traversal calls, are not preceded by an error report on their path, and are guarded by something other
+    than a presence / kind test."""
+    out = []
+    for hname, h in sorted(v.methods.items()):
+        if not hname.startswith("v_"):
+            continue
+        own = [n for n in walk_no_nested(h)]
+        visits = [n for n in own if isinstance(n, ast.Call) and last_attr(n) in _TRAVERSAL]
+        if not visits:
+            continue
+        last_visit = max(n.lineno for n in visits)
+        parents = {}
+        for n in own + [h]:
+            for fld in ("body", "orelse"):
+                for s in (getattr(n, fld, None) if isinstance(getattr(n, fld, None), list) else []):
+                    if isinstance(s, ast.stmt):
+                        parents[id(s)] = n
+        for r in own:
+            if not isinstance(r, ast.Return) or r.lineno >= last_visit:
+                continue
+            p = parents.get(id(r))
+            guards = []
+            node = r
+            while p is not None and p is not h:
+                if isinstance(p, ast.If):
+                    guards.append(p.test)
+                node, p = p, parents.get(id(p))
+            # an error reported just before the return is a rejection, not a skip
+            sib = parents.get(id(r))
+            blk = (sib.body if r in getattr(sib, "body", []) else getattr(sib, "orelse", [])) if sib is not None else []
+            reported = any(isinstance(c, ast.Call) and last_attr(c) == "Raise" for s in blk for c in ast.walk(s)) or clears_flag(blk)
+            if reported:
+                continue
+            odd = [g for g in guards if not _presence_test(g)]
+            if odd or not guards:
+                out.append((h, r, odd[0] if odd else r))
+    return out
+
+
+def conditional_traversals(v):
+    """[(handler, traversal call, guard)] traversal calls of a visitor's handlers that sit under a condition which is not
+    a presence / kind test (or under the else of one): the child below is looked at for some programs only."""
+    out = []
+    for hname, h in sorted(v.methods.items()):
+        if not hname.startswith("v_"):
+            continue
+        own = list(walk_no_nested(h))
+        parents = {}
+        for n in own + [h]:
+            for fld in ("body", "orelse", "finalbody", "handlers"):
+                val = getattr(n, fld, None)
+                for s in (val if isinstance(val, list) else []):
+                    parents[id(s)] = n
+            if isinstance(n, ast.Expr) or isinstance(n, (ast.Assign, ast.Return, ast.AugAssign)):
+                for c in ast.walk(n):
+                    if isinstance(c, ast.Call):
+                        parents.setdefault(id(c), n)
+        for c in own:
+            if not (isinstance(c, ast.Call) and last_attr(c) in _TRAVERSAL):
+                continue
+            p = parents.get(id(c))
+            while p is not None and p is not h:
+                if isinstance(p, ast.If) and not _presence_test(p.test):
+                    out.append((h, c, p.test))
+                    break
+                p = parents.get(id(p))
+    return out
+
+
 def clears_flag(stmts, flag="valid"):
     for s in stmts:
         for n in ast.walk(s):
@@ -516,6 +613,14 @@ def run(model, col, tier):
                                   and any(isinstance(x, ast.Attribute) and x.attr == "valid" for x in val_.values))
                         if not sticky:
                             resets.append(n)
+        cond_tr = conditional_traversals(v)
+        col.check(not cond_tr, "R13.5", f"{rel}::{v.name} visits children unconditionally", "no traversal call depends on more than the presence / kind of the child",
+                  (f"{cond_tr[0][0].name} visits `{' '.join(unparse(cond_tr[0][1]).split())[:50]}` only if `{' '.join(unparse(cond_tr[0][2]).split())[:60]}`" if cond_tr else "")
+                  + ": for the other programs that subtree is never validated", rel, cond_tr[0][1] if cond_tr else v.node)
+        early = validator_early_exits(v)
+        col.check(not early, "R13.5", f"{rel}::{v.name} looks at everything", "no handler returns before its traversal calls except on the absence / kind of a child",
+                  (f"{early[0][0].name} returns under `{' '.join(unparse(early[0][2]).split())[:70]}` before it has visited its node's children" if early else "")
+                  + ": what lies below is accepted unchecked (the condition is a guess about the subtree, not a test for its absence)", rel, early[0][1] if early else v.node)
         col.check(not resets, "R13.5", f"{rel}::{v.name} flag is sticky", "outside __init__ `valid` is only ever set to False",
                   f"`{unparse(resets[0])[:70] if resets else ''}` assigns a computed value to `valid`: a later node that passes the test sets the flag back to True, so the verdict is that of the "
                   "last visited node, not of the whole program", rel, resets[0] if resets else v.node)
@@ -528,6 +633,14 @@ def run(model, col, tier):
                       f"every raise in the visitor ({len(raise_sites)}) is preceded by valid = False",
                       f"errors are swallowed by CompileExceptionToErrorHandler without clearing `valid`: raise sites not preceded by `valid = False`: {bad_sites}; "
                       f"raising helpers outside the visitor: {helper_raises}. The pass accepts whatever it diagnoses", rel, v.node)
+    # the typing pass gives every declaration its own type: it, too, visits the children of a node unconditionally (a field
+    # that is skipped because "its name is known already" takes the type of another structure's field, and every static check
+    # on element selection then works with the wrong sizes)
+    ctv13 = model.cls("nsl/passes/ComputeTypes.py", "ComputeTypeVisitor")
+    ct_cond = conditional_traversals(ctv13) + [(h_, r_, g_) for h_, r_, g_ in validator_early_exits(ctv13)]
+    col.check(not ct_cond, "R13.5", "nsl/passes/ComputeTypes.py::ComputeTypeVisitor types every child", "no handler skips the visit of a child on a condition other than its presence / kind",
+              (f"{ct_cond[0][0].name}: `{' '.join(unparse(ct_cond[0][1]).split())[:50]}` under `{' '.join(unparse(ct_cond[0][2]).split())[:60]}`" if ct_cond else "")
+              + ": a declaration that is not visited keeps no type of its own", "nsl/passes/ComputeTypes.py", ct_cond[0][1] if ct_cond else ctv13.node)
     pipe.makepass_process(col, "R13.5")
     pipe.check_gating(col, "R13.5")
     pipe.check_pass_freshness(col, "R13.5", ["ValidateArrayAccessType", "ValidateArrayOutOfBoundsAccess", "ValidateSwizzle"])
